@@ -87,12 +87,39 @@ NEEDS2 = {
  "C20B": ("src/wcet/curve.rs least_wcet: len().max(n) instead of min", "curve cost model and more jobs in the window than the curve has entries: index out of bounds in both profiles"),
 }
 
+NEEDS3 = {
+ "C01A": ("src/fixed_priority/floating_nonpreemptive.rs: blocking_bound added only at offset A = 0", "non-zero blocking, a busy window with at least two jobs of the analysed task, the worst job a later one (R > T)"),
+ "C02A": ("src/edf/fully_nonpreemptive.rs: .skip(1) on the other tasks' steps before the deadline shift", "a later-deadline task whose first shifted step (the tie offset D_o - D) carries the worst case: three tasks or a bursty tie task"),
+ "C02B": ("src/edf/fully_preemptive.rs: the maximum over offsets stops at the first offset with F = 0", "a vacuous offset in front of the tie offset of a longer-deadline task with a long job"),
+ "C04A": ("src/ros2/ecrts19.rs rta_processing_chain: own WCET read from full_chain instead of the last callback", "the full chain described as ONE summed-WCET request bound (as the library's own test does) and an interferer re-arriving while the earlier chain callbacks execute"),
+ "C04B": ("src/ros2/ecrts19.rs bound_response_time: offset search stops once an instance completes before the next arrives", "non-preemptive callbacks: a later instance delayed more than the first although the own queue was empty in between (0.044 % of workloads)"),
+ "C05A": ("src/ros2/rr.rs direct_rbf: interference window without the response-time extension", "three polled callbacks, a pending higher-priority instance that waited more than one processing window, a bursty lower-priority callback (1 in 14 000 random workloads)"),
+ "C05B": ("src/ros2/bw.rs busy_window_rbf, known-priority arm: num_polling_points instead of arrived_bw", "bw with known priorities, three callbacks, activation offset > 0 just after a polling point (0.02 % of workloads)"),
+ "C06A": ("src/edf/fully_nonpreemptive.rs: .skip(1) on the other tasks' steps (same slip as round-3 C02-A), observed against the equations", "the offset D_other - D_tua dominates A = 0"),
+ "C06B": ("src/edf/limited_preemptive.rs: the analysed task's own demand evaluated at min(AF, A+1)", "a busy window with at least two jobs of the analysed task where the later job suffers more"),
+ "C07A": ("src/ros2/ecrts19.rs: interference interval (prefix + response).saturating_sub(own_wcet) + eps in all three closures", "a chain whose callbacks have DIFFERENT arrival curves (jitter growing along the chain) and a prefix-only step near the end of the busy window: debug panic / release Err"),
+ "C07B": ("src/ros2/rr.rs marginal_execution_cost: cost_of_jobs(1)", "rr analysis whose end-of-chain callback has a non-scalar cost model and a self-interfering instance"),
+ "C10A": ("src/arrival/curve.rs Curve::number_arrivals: the initial burst counted only in the first repetition of the prefix", "a plain Curve with d[0] = 0 and a window of at least twice the largest known distance"),
+ "C10B": ("src/arrival/curve.rs jobs_within_largest_known_distance = lookup_arrivals(L - epsilon)", "a delta-min vector with an entry equal to L - 1, queried at delta >= L"),
+ "C11A": ("src/arrival/curve.rs Curve::steps_iter: skip_while(zero) instead of filter(non-zero)", "a plateau at a non-zero distance: repeated steps"),
+ "C11B": ("src/arrival/slice.rs impl ArrivalBound for [T]: dedup() per component before kmerge()", "the SLICE implementation with two components sharing a step (delta = 1 always is)"),
+ "C12A": ("src/arrival/curve.rs from_trace: early exit of the sliding-window scan", "a tight cluster of three or more events completed later in the trace"),
+ "C12B": ("src/arrival/dmin.rs DeltaMinIterator: items labelled with step_count instead of next_count", "any model where two jobs share a step (bursts)"),
+ "C13A": ("src/arrival/curve.rs: jobs_in_largest_known_distance = len + 2 AND StepsIter::advance extrapolates to njobs instead of njobs + 1 — each alone unobservable", "THREE operations in order: advance a steps_iter past the cached prefix; extend the cache by >= 2 entries through a clone / jittered clone / second iterator; continue the first iterator (it skips a step)"),
+ "C13B": ("src/arrival/curve.rs extrapolate_with_bound, single-entry branch: pushes delta instead of delta - epsilon", "a single-entry prefix followed by an explicit extrapolate_with_bound: optimistic curve"),
+ "C19A": ("src/edf/fully_nonpreemptive.rs: blocking bound = service_needed(epsilon) - epsilon of the blocker", "a later-deadline blocker that can release several jobs at one instant: safe but breaks LP(seg=WCET) == NP"),
+ "C19B": ("src/edf/floating_nonpreemptive.rs: shifted search-space steps taken from the analysed task's RBF instead of the other task's", "different periods and a later release of the other task inside the busy window"),
+}
+
 def rounds():
     for key, val in sorted(NEEDS.items()):
         yield key, val, f"/tmp/wt/out-{key[:3]}", [f"/tmp/seedres/{key}.recheck.txt", f"/tmp/seedres/{key}.quick.txt"], f"/tmp/seedres/{key}.quick.txt", f"{key[:3]}-{key[3]}", 1
     for key, val in sorted(NEEDS2.items()):
         name = f"{key[:3]}-{'C' if key[3] == 'A' else 'D'}"
         yield key, val, f"/tmp/wt/out2-{key[:3]}", [f"/tmp/seedres/R2{key}.recheck.txt", f"/tmp/seedres/R2{key}.quick.txt"], f"/tmp/seedres/R2{key}.quick.txt", name, 2
+    for key, val in sorted(NEEDS3.items()):
+        name = f"{key[:3]}-{'E' if key[3] == 'A' else 'F'}"
+        yield key, val, f"/tmp/wt/out3-{key[:3]}", [f"/tmp/seedres/R3{key}.recheck.txt", f"/tmp/seedres/R3{key}.quick.txt"], f"/tmp/seedres/R3{key}.quick.txt", name, 3
 
 def main():
     root = "/verif/seeded"
@@ -143,7 +170,7 @@ def main():
             "breaks_property": pid,
             "change": change,
             "needs_to_manifest": needs,
-            "origin": "fresh sub-agent given only the property text and its own scratch worktree of /repo" + (" (second round: additionally given the list of first-round changes, to avoid repeats)" if rnd == 2 else ""),
+            "origin": "fresh sub-agent given only the property text and its own scratch worktree of /repo" + (" (later round: additionally given the list of earlier changes, to avoid repeats)" if rnd >= 2 else ""),
             "confirmed_by_me": {
                 "how": "scratch worktree of /repo HEAD (fix commits included) outside /repo and /verif: demo as tests/seeded_demo.rs on the clean tree, then with patch.diff applied; the repository's own suite with patch.diff applied (cargo test --offline)",
                 "demo_on_clean_tree": after("demo on clean tree:", base),
